@@ -12,6 +12,7 @@ CLAIMED = {
  'C05': ('exploration', 'Same world with result sequences of length 1-6 on the default and on clauses (Return+AndReturn and Returns forms); sequential part compared position by position with the reference; concurrent part = 2-4 caller tasks under the seeded scheduler with preemption between the cursor load and add (hook matcher.result.loaded), recorded invoke/return event numbers checked with porcupine against the relaxed sequence model (positions in range, never backwards) plus the pairwise criterion, and the same plans under the race-detector build whose only cross-task happens-before edges are goom\'s own.', 'Trusted: porcupine v1.3.0; histories are capped at 64 operations per clause; Unknown (timeout) is never reported.', 'deterministic simulation: seeded interleavings of concurrent callers, porcupine linearizability check of the recorded history, race detector on serialised execution', 'DESIGN.md §7 C04+C05'),
  'C07': ('exploration', 'Histories of interface-variable mocks over an interface zoo (1-6 methods, unsorted declaration order, unexported and embedded methods, three variables per type some pre-loaded): Apply and As().Return per method in any subset/order, every method called through the variable (mocked slot -> its own replacement with exact arguments, un-mocked slot -> "method not implements" panic), other variables untouched, variable non-nil, builder dropped, Reset restores the two interface words; GC events (clobberfree + churn) fire at every yield including between two method mocks.', 'Trusted: one builder per variable and history; a second bare Return on the same method in one stub epoch is not generated.', 'deterministic simulation: seeded histories with GC-event injection at hook points, reference model + crash oracle', 'DESIGN.md §7 C07'),
  'C08': ('exploration', 'Set / Apply / Cancel / Reset histories (0..n Sets, double resets, lookups without Set) over a 27-variable zoo of every kind (exported by pointer, unexported by package.name) with GC events between and inside steps; after every step the variable is read directly and through an accessor compiled in its package and compared (identity for reference kinds) with the model "first pre-mock value per builder".', 'Trusted: a variable is handled by one builder per history (two builders on one variable are outside the statement); Set(untyped nil) and values of another type on unexported variables are not generated (documented as undefined).', 'deterministic simulation: seeded histories with GC events vs reference model', 'DESIGN.md §7 C08'),
+ 'C10': ('fault_enumeration', 'Every run starts from a fresh load of the symbol tables (ResetForVerif). The executable is read through the reader seam: a clean load makes 8-15 ReadAt calls; for call indices 0..15 x {EIO, truncation at that offset, zero-filled data} exactly one read is failed (directive mode) and in multi-task cases 1-4 tasks race into first use under the scheduler with the fault armed. Lookups cover every uniquely named function of the binary (consecutive 100-name blocks across seeds), zoo variables, absent and near-miss names. Truth is independent of goom\'s gosym path: function entries from runtime.FuncForPC scanned over .text, variable addresses from &var. Outcome must be the true address or an error / documented panic, never another address, also for every later lookup after a failed load. Three link modes: default, -buildmode=pie, -ldflags=-s (for the latter two the statement allows an error for every lookup); race build on the same plans.', 'Trusted: runtime.FuncForPC as the address oracle; names shared by an ABI wrapper and its body accept either entry.', 'deterministic simulation: enumeration of read-fault points on the symbol source x seeded interleavings of concurrent first use', 'DESIGN.md §7 C10'),
  'C11': ('exploration', 'The core use of the scheduler: 2-4 mocker tasks (own builder, pairwise disjoint targets) and 1-3 caller tasks on steadily mocked functions (callbacks, origin-calling callbacks, stubs) taken from an address-adjacent window of the zoo so that they share code pages. Seeded preemption at every hook site (inside replaceFunc, between mprotect RWX / copy / mprotect RX, at every lock hand-over of the modelled patches/mem/funcsize locks), GC and stack-growth events at the same points. Oracles: the race-detector build of the same plans (the baton is invisible to the detector, so only goom\'s own synchronisation orders tasks), crash and sim-deadlock, every steady call returns its mocked result with one callback invocation, each mocker\'s targets follow its own model after each of its operations, the full text image differs from pristine only at entries some task owns (complete jump or pristine, never a mixture), pages keep x while a writer is parked mid-write, and at quiescence the image is pristine again.', 'Trusted: hook placement (a deleted hook line removes a preemption point, the race and end-of-operation oracles still run); serialised execution cannot show multi-core effects of cross-modifying code; callers only touch steady targets as the statement requires.', 'deterministic simulation: seeded scheduler over real goroutines (futex baton), modelled locks, race detector on serialised execution, image/page invariants at every step', 'DESIGN.md §7 C11'),
  'C12': ('exploration', 'Lookup/instruction histories (fresh lookups only) against a last-writer-wins model, behaviour checked by calling the target after every step.', 'Trusted: the grammar of Appendix F (stale handles kept across Apply are not generated).', 'deterministic simulation: seeded histories vs last-writer-wins reference model', 'DESIGN.md §7 C12'),
  'C13': ('exploration', 'Well-formed histories with eleven classes of ill-formed configuration calls spliced in at seeded positions (on un-mocked and on mocked targets); each must panic/err (typed cause chain walked), change no text byte, and leave the model state intact for the rest of the history.', 'Trusted: the classes of mistakes are the ones the statement lists; When(..).Return(bad) chains are not generated because the When half is a valid call that patches.', 'deterministic simulation: fault = rejected operation inside a history, "nothing changed" image oracle', 'DESIGN.md §7 C13'),
